@@ -160,7 +160,8 @@ def run_multiple(chk, want):
                 msa = mult.Multiple(seqs)
                 (msa.prog_align if method == 'progressive' else msa.lib_align)(**kw)
                 toks = [ipa2tokens(s) for s in seqs]
-                e = oracle_msa(msa, toks)
+                # row content / shape is C04's statement; C11 only speaks about the compared score
+                e = oracle_msa(msa, toks) if want == 'C04' else None
                 for name, ckw in calls:
                     if e:
                         break
@@ -174,8 +175,8 @@ def run_multiple(chk, want):
                     else:
                         getattr(msa, name)(**ckw)
                     log.append(name)
-                    e = oracle_msa(msa, toks)
-                    if not e and name != 'swap_check':
+                    e = oracle_msa(msa, toks) if want == 'C04' else None
+                    if not e and name != 'swap_check' and want == 'C11':   # the score clause is C11's statement, not C04's
                         gw = ckw['gap_weight']
                         sop_after = msa.sum_of_pairs(gap_weight=gw)
                         if sop_after < sop_before[gw] - 1e-12:
